@@ -113,9 +113,11 @@ def jobs_for(tier: str) -> list[dict]:
     rng = np.random.default_rng([seed(), 202])
     jobs: list[dict] = []
     for k in mh.all_witnesses():
-        jobs.append({"kind": "witness", "id": f"w/{k}", "name": k, "hs": True})
+        jobs.append({"kind": "witness", "id": f"w/{k}", "name": k, "hs": True,
+                     "depths": [0, 3, 6] if quick else [0, 1, 3, 6]})
     for k in vizjobs.api_graphs():
-        jobs.append({"kind": "api", "id": f"api/{k}", "name": k, "hs": True})
+        jobs.append({"kind": "api", "id": f"api/{k}", "name": k, "hs": True,
+                     "depths": [1, 3] if quick else [0, 2, 3, 5]})
     jobs.append({"kind": "traceback", "id": "tb/every_kind", "name": "every_kind"})
     jobs.append({"kind": "traceback", "id": "tb/nasty_tags", "name": "nasty_tags"})
     for k in vizjobs.nasty_name_cases():
@@ -132,7 +134,7 @@ def jobs_for(tier: str) -> list[dict]:
             jobs.append({"kind": "t1", "id": f"gen/{i}/{sc}", "ch": sh["ch"],
                          "rep": list(range(1, n + 1)), "scheme": sc,
                          "leaf": ["ph", "mix"][(i + j) % 2], "root": ["dict", "array"][(i // 2 + j) % 2],
-                         "gv": (i + j) % (8 if quick else 3) == 0, "repr": (i + j) % 3 == 0,
+                         "gv": (i + j) % (8 if quick else 3) == 0, "repr": (i + j) % (5 if quick else 3) == 0,
                          "hs": i % 40 == 0})
     # random programs, some values tagged with texts that need escaping
     nprog = 120 if quick else 1500
@@ -216,7 +218,7 @@ def judge_hand(rec: dict) -> tuple[str, str]:
     return vizrepr.judge_repr(rec["src"], rec["tree"], rec["depth"])
 
 
-def main(tier: str, only: list[dict] | None = None) -> int:
+def main(tier: str, only: list[dict] | None = None, hs: bool = False) -> int:
     run = Run(PROP, tier, "model_checking")
     box: dict[str, Any] = {}
     threads: list[threading.Thread] = []
@@ -231,6 +233,10 @@ def main(tier: str, only: list[dict] | None = None) -> int:
         threads[-1].start()
     else:
         jobs = only
+        if hs:       # replay of a hash-seed violation: the fresh interpreters again
+            jobs = [dict(j, hs=True) for j in jobs]
+            threads.append(threading.Thread(target=other_seeds, args=(jobs, box)))
+            threads[-1].start()
     results = [r for rs in robust_map(
         _run_jobs, jobs, chunk=max(1, min(12, len(jobs) // (NCPU * 3) or 1)),
         crashed=lambda item, why: [{"id": item["id"], "family": item["kind"], "records": [],
@@ -364,7 +370,8 @@ def main(tier: str, only: list[dict] | None = None) -> int:
 
 
 def replay(rep: dict) -> int:
-    return main("quick", only=[rep["record"]])
+    clause = str((rep.get("sig") or {}).get("clause", ""))
+    return main("quick", only=[rep["record"]], hs=clause.startswith("hashseed"))
 
 
 # --------------------------------------------------------------------------
